@@ -158,7 +158,7 @@ def shimmed_names():
     return set(re.findall(r'^#define\s+(\w+)\(', open(hdr).read(), re.M))
 
 
-def weave_function(fn, path, src, edits, counter, census, loops=None):
+def weave_function(fn, path, src, edits, counter, census, loops=None, split_rmw=True):
     body = [c for c in fn.get('inner', []) if c.get('kind') == 'CompoundStmt']
     if not body:
         raise WeaveError('no body for %s' % fn.get('name'))
@@ -221,7 +221,7 @@ def weave_function(fn, path, src, edits, counter, census, loops=None):
         n = counter[0]
         counter[0] += 1
         stats['accesses'] += 1
-        if rmw_stmt is not None:
+        if rmw_stmt is not None and split_rmw:
             # non-atomic read-modify-write of shared memory: a second interference point between the read and the write.
             # The operation runs on a shadow copy; verif_rmw_commit (inserted after the statement) writes it back.
             qt = e.get('type', {}).get('qualType', '')
@@ -327,6 +327,10 @@ def weave_function(fn, path, src, edits, counter, census, loops=None):
             else:
                 edits.append((b, 0, -10000, PRE + '{ verif_sync(%d); ' % s + POST))
                 edits.append((i + 1, 1, 10000, PRE + ' }' + POST))
+        elif k in ('WhileStmt', 'ForStmt', 'DoStmt') and file_off(n['range']['begin'], path) is None:
+            # a loop spelled inside a macro body (the `do { } while (0)` idiom): not woven, not numbered; a real loop hidden in a
+            # macro would show up in the prover's loop census as an uncontracted loop
+            stats['macro_loops'] = stats.get('macro_loops', 0) + 1
         elif k in ('WhileStmt', 'ForStmt', 'DoStmt'):
             ordinal = loopno[0]
             loopno[0] += 1
@@ -427,7 +431,7 @@ def clang_ast(repo_file, parse_file, fn, cflags):
     return parse_objs(p.stdout)
 
 
-def weave_file(path, fns, cflags, parse_file=None, first_site=0, loops=None):
+def weave_file(path, fns, cflags, parse_file=None, first_site=0, loops=None, split_rmw=True):
     """returns (woven_text, census).  `path` is the file holding the function
     bodies; `parse_file` a .c file that includes it (for header inlines)."""
     src = open(path).read()
@@ -444,7 +448,7 @@ def weave_file(path, fns, cflags, parse_file=None, first_site=0, loops=None):
                     any(c.get('kind') == 'CompoundStmt' for c in o.get('inner', [])):
                 if file_off(o['range']['begin'], path) is None:
                     continue
-                weave_function(o, path, src, edits, counter, census, (loops or {}).get(fn))
+                weave_function(o, path, src, edits, counter, census, (loops or {}).get(fn), split_rmw)
                 found = True
                 break
         if not found:
